@@ -15,6 +15,11 @@ MODULES = ["Percival.Properties.C14"]
 WRAP = "-Wl,--wrap=malloc,--wrap=calloc,--wrap=realloc,--wrap=free,--wrap=atexit"
 NOBUILTIN = c12.NOBUILTIN
 EV_SRCS = ["datastruct/timerqueue.c", "events/events_network_selectstats.c", "util/warnp.c"]
+UP_SRCS = ["events/events.c", "events/events_immediate.c", "events/events_network.c",
+           "events/events_network_selectstats.c", "events/events_timer.c", "datastruct/elasticarray.c",
+           "datastruct/ptrheap.c", "datastruct/timerqueue.c", "network/network_read.c", "network/network_write.c",
+           "network/network_connect.c", "netbuf/netbuf_read.c", "netbuf/netbuf_write.c", "http/http.c", "util/sock.c",
+           "util/sock_util.c", "util/asprintf.c", "util/humansize.c", "util/monoclock.c", "util/warnp.c"]
 KCAP = 70          # above this many allocations the k's are sampled (all k <= 24, then every third)
 
 
@@ -102,6 +107,38 @@ def bases_events(rng, tier):
     return out
 
 
+def bases_upper(rng, tier):
+    nb = 14 if tier == "quick" else 90
+    out = []
+    for bi in range(nb):
+        r = rng.fork("up%d" % bi)
+        ops = []
+        for _ in range(r.range(2, 5 if tier == "quick" else 8)):
+            k = r.below(100)
+            if k < 14:
+                ln = r.choice([1, 100, 4096, 20000])
+                ops.append("nw %d %d %d" % (ln, r.choice([1, ln, max(1, ln // 2)]), r.below(256)))
+            elif k < 28:
+                ln = r.choice([1, 100, 4096, 20000])
+                ops.append("nr %d %d %d" % (ln, r.choice([1, ln, max(1, ln // 2)]), r.below(256)))
+            elif k < 48:
+                ops.append("nbw %d %d %d" % (r.range(1, 6), r.choice([1, 10, 300, 4096, 5000]), r.below(256)))
+            elif k < 66:
+                chunk = r.choice([1, 100, 1000, 4096, 5000])
+                ops.append("nbr %d %d %d" % (chunk * r.range(1, 4) + r.below(3), chunk, r.below(256)))
+            elif k < 88:
+                ops.append("http %d" % r.below(3))
+            elif k < 95:
+                ops.append("hs %d" % r.choice([0, 999, 1000, 123456, 10 ** 12, (1 << 64) - 1]))
+            else:
+                ops.append("spp")
+        ops.append("end")
+        out.append(ops)
+    # the sequence that exposed F7 (fixed): a refused reserve must not poison the writer
+    out.append(["nbw 6 300 1", "nbw 3 5000 2", "end"])
+    return out
+
+
 _N = re.compile(r"\| n=(\d+)")
 
 
@@ -169,7 +206,14 @@ def make_components(ctx):
         rule="events: base sequences over ptrheap init/add/getmin/deletemin and events_immediate/timer/network register/cancel, "
              "clock steps and events_run (poll reports nothing ready, harness clock) x {no fault, failat k, failfrom k : every k}",
         monitor_args=["afmon"], ldflags=[WRAP + ",--wrap=poll"], **common)
-    return [(cont, bases_containers), (ev, bases_events)]
+    up = vlib.Component(
+        "upper", "h_af_upper.c", UP_SRCS, ["upecho"], None, nontrivial=lambda c: c[0].startswith("fail"),
+        rule="upper (OBSERVED BY FAULT ENUMERATION, NOT PROVED - no Lean failure model): sessions of network_write / "
+             "network_read / netbuf writer (write and reserve+consume) / netbuf reader (wait+peek+consume) / http_request "
+             "(content-length, chunked, 1xx then close-delimited) / humansize / sock_addr_prettyprint over real socketpairs "
+             "x {no fault, failat k, failfrom k : every k}; judged by the L1 rules of pmodel upmon only",
+        monitor_args=["upmon"], ldflags=[WRAP + ",--wrap=poll"], ignore_l2=True, **common)
+    return [(cont, bases_containers), (ev, bases_events), (up, bases_upper)]
 
 
 def components(ctx):
@@ -203,4 +247,7 @@ def check(ctx):
         fails = vlib.run_cases(ctx, comp, exe, cases)
         ctx.cov["components"][comp.name]["cases"] = len(cases)
         vlib.process_failures(ctx, comp, fails)
-    return vlib.finish(ctx, "proof", MODULES)
+    return vlib.finish(ctx, "proof", MODULES,
+                       explanation="level 'proof' applies to the components 'containers' and 'events' (Lean models + theorems + "
+                                   "lock-step tie); the component 'upper' (network_read/write, netbuf, http, asprintf users) is "
+                                   "observed by fault enumeration against the L1 monitor only, not proved")
